@@ -340,6 +340,8 @@ impl<'a> Prog<'a> {
             }
             if calc != Some(dck) {
                 self.oracle_fail("C08", "calc_ne_xxh64_delivered", format!("calculated checksum {:?} != low32(XXH64(delivered)) {}", calc, dck));
+                // "the final checksum values are identical no matter how decoding is driven" (the frame's content is fixed)
+                self.oracle_fail("C06", "final_checksum_depends_on_schedule", format!("calculated checksum {:?} after this driver program != low32(XXH64(content)) {}", calc, dck));
             }
             if has_ck && cks != Some(expect_ck) {
                 self.oracle_fail("C08", "stored_ne_xxh64_original", format!("checksum from data {:?} != low32(XXH64(original)) {}", cks, expect_ck));
@@ -708,6 +710,7 @@ pub fn drive_from_to(p: &mut Prog, rng: &mut Rng, frame: &[u8]) {
             let (consumed, total) = (pos, frame.len());
             p.oracle_fail_pub("C06", "decode_from_to_does_not_finish", format!("decode_from_to never finishes a complete valid frame: stuck after consuming {} of {} source bytes ({} bytes delivered)", consumed, total, p.delivered.len()));
             p.oracle_fail_pub("C01", "rejects_valid_frame", format!("decode_from_to never finishes a complete valid frame: stuck after consuming {} of {} source bytes", consumed, total));
+            p.oracle_fail_pub("C10", "decode_from_to_does_not_finish", format!("decode_from_to treats a complete valid frame as truncated: stuck after consuming {} of {} source bytes", consumed, total));
         }
     }
 }
@@ -1036,6 +1039,21 @@ pub fn run(opts: &Opts) -> Run {
             p.truth = truth(true, c.frame.len());
             drive_from_to(&mut p, &mut rng, &c.frame);
         }
+        // (c2) slice-to-slice with MORE data behind the frame in the same slice (another frame, zero padding, garbage): the
+        // call must stop exactly at the end of the frame, whether or not the frame carries a checksum
+        if i % 2 == 0 {
+            let tail: Vec<u8> = match rng.below(3) {
+                0 => c.frame.clone(),
+                1 => vec![0u8; 64],
+                _ => rng.bytes(40),
+            };
+            let mut both = c.frame.clone();
+            both.extend_from_slice(&tail);
+            let mut p = Prog::new(&mut run, &format!("{} + {} bytes behind the frame", c.label, tail.len()));
+            p.truth = truth(true, c.frame.len());
+            drive_from_to(&mut p, &mut rng, &both);
+            p.run.stat(if c.has_checksum { "from_to_with_data_behind:checksum" } else { "from_to_with_data_behind:no_checksum" }, 1);
+        }
         // (d) truncation: strict prefixes must end in an error / not finished, delivering a prefix
         let cuts: Vec<usize> = if c.frame.len() <= 40 { (0..c.frame.len()).collect() } else { (0..6).map(|_| rng.below(c.frame.len() as u64) as usize).chain([c.frame.len() - 1, c.frame.len() - 4, 5, 6]).collect() };
         for cut in cuts {
@@ -1080,6 +1098,9 @@ pub fn run(opts: &Opts) -> Run {
                 let mut ops = 0;
                 while !p.finished() && !p.is_failed() && ops < 600 {
                     p.blocks(if rng.chance(1, 2) { "blocks:1" } else { "bytes:70000" });
+                    if p.finished() {
+                        break; // what is left is taken below: by one collect() or through the writer
+                    }
                     let can = p.can();
                     if can > 0 {
                         let budget = rng.below(can as u64 + 1) as usize;
@@ -1090,6 +1111,12 @@ pub fn run(opts: &Opts) -> Run {
                         }
                     }
                     ops += 1;
+                }
+                // the frame is finished and the ring is (usually) wrapped: half of the programs take the rest with ONE
+                // final collect() (= drain of both segments at once), the others keep using the writer
+                if p.can() > 0 && rng.chance(1, 2) {
+                    p.collect();
+                    p.run.stat("final_collect_on_wrapped_ring", 1);
                 }
                 let mut guard = 0;
                 while p.can() > 0 && guard < 50 {
